@@ -27,6 +27,11 @@ pub enum Dev {
     /// two compensating changes: u := u * a^-1 and signature := signature * a (a = -1, 2, 3), so that the pairing
     /// e(signature, u) and with it every derived value is the honest one; only the final check on u can refuse
     Compensated(u8),
+    /// u plus a point outside the prime order subgroup, presented through a decoder
+    UAddTorsion(Codec),
+    /// the leading bytes of w rewritten (the plaintext is known) so that they unmask to another length prefix: index
+    /// into `crafted_prefixes`
+    CraftedPrefix(u8),
 }
 
 #[derive(Clone, Debug, PartialEq, Eq, Hash, Serialize, Deserialize)]
@@ -46,6 +51,18 @@ pub struct M13<C: Suite> {
     ids: Vec<Vec<u8>>,
     splits: Vec<(usize, usize)>,
     _c: PhantomData<C>,
+}
+
+/// length prefixes an attacker who knows the plaintext can plant: arithmetic edge values of the announced length
+fn crafted_prefixes(len: usize) -> Vec<Vec<u8>> {
+    let mut v: Vec<Vec<u8>> = [u64::MAX as u128, (u64::MAX - 9) as u128, (u64::MAX - 10) as u128, 1u128 << 63, (1u128 << 63) - 1, 1u128 << 32, (1u128 << 64) + 5, len as u128 + 1, (len as u128).saturating_sub(1), 0]
+        .iter()
+        .map(|n| rf::leb128(*n))
+        .collect();
+    v.push(vec![0xff; 10]);
+    v.push(vec![0xff; 16]);
+    v.push(vec![0x80, 0x00]);
+    v
 }
 
 impl<C: Suite> M13<C> {
@@ -177,6 +194,16 @@ impl<C: Suite> Model for M13<C> {
         a.push(Dev::UIdentity);
         for c in 0..3u8 {
             a.push(Dev::Compensated(c));
+        }
+        if st.len <= 1000 {
+            for c in DECODERS {
+                a.push(Dev::UAddTorsion(c));
+            }
+        }
+        if st.len >= 16 {
+            for i in 0..crafted_prefixes(st.len).len() as u8 {
+                a.push(Dev::CraftedPrefix(i));
+            }
         }
         a
     }
@@ -311,6 +338,30 @@ impl<C: Suite> Model for M13<C> {
                     ct.u = PkP::<C>::identity();
                     mutant = true;
                 }
+                Dev::CraftedPrefix(i) => {
+                    let planted = &crafted_prefixes(msg.len())[i as usize];
+                    let framed = rf::frame(&msg);
+                    for (j, b) in planted.iter().enumerate() {
+                        ct.w[j] ^= framed[j] ^ b;
+                    }
+                    mutant = true;
+                }
+                Dev::UAddTorsion(c) => {
+                    let from = pt(&ct0.u);
+                    let to = rf::torsion_perturbed(&from).expect("a point outside the subgroup");
+                    match redecode_with_point(&ct0, &from, &to, c) {
+                        Ok(x) => ct = x,
+                        Err(e) if e == "component-not-found" => {
+                            o.expect(&format!("C13:harness-locates-component:{}", g), false, "found", &e);
+                            return;
+                        }
+                        Err(_) => {
+                            o.outcome("mutant:undecodable");
+                            return;
+                        }
+                    }
+                    mutant = true;
+                }
                 Dev::Compensated(c) => {
                     use blsful::inner_types::Field;
                     let a = match c {
@@ -386,7 +437,7 @@ impl<C: Suite> Model for M13<C> {
         if expect_msg {
             let ok = dec.as_ref() == Some(&msg);
             o.outcome(if ok { "honest:message" } else { "honest:fails" });
-            let lc = if st.len <= 40 { "len<=40" } else if st.len <= 140 { "len<=140" } else { "len>=16380" };
+            let lc = if st.len <= 40 { "len<=40" } else if st.len <= 140 { "len<=140" } else if st.len < 65535 { "len>=16380" } else if st.len < 2097151 { "len>=65535" } else { "len>=2^21-1" };
             o.expect(&format!("C13:round-trip:{}:{}:{}:{}", g, st.s.name(), cls, lc), ok, "the original message", &format!("{:?}", dec.as_ref().map(|m| m.len())));
         } else {
             o.outcome(if dec.is_none() { "wrong-signature:nothing" } else { "wrong-signature:something" });
